@@ -16,7 +16,7 @@ def clause_property(verdict, case):
     return CLAUSE.get(verdict.split("@")[0])
 
 
-WHATS = {"C14": [("layout", 2500, None), ("memo", 3000, None)],
+WHATS = {"C14": [("layout", 2500, None), ("memo", 3000, None), ("memo2", 3000, None)],
          "C15": [("canon", None, None), ("compat", 3000, None), ("link", 5000, 60000)]}
 
 
